@@ -335,7 +335,11 @@ impl FileSpec {
                     new_path.to_string_lossy().to_string()
                 };
                 let index = file_stem_string.find(".restart-").unwrap(/*ok*/);
-                file_stem_string[(index + 9)..(index + 13)].parse::<usize>().unwrap(/*ok*/) + 1
+                // (unrelated files can have something else than a number behind ".restart-")
+                file_stem_string
+                    .get((index + 9)..(index + 13))
+                    .and_then(|s| s.parse::<usize>().ok())
+                    .map_or(0, |n| n + 1)
             };
 
             infix.to_string().add(&format!(".restart-{next_number:04}"))
